@@ -155,6 +155,9 @@ Definition dec_overloaded (recursive : bool) (w n lf l2 : Z) : bool := (recursiv
 Definition cts_threshold (placed : bool) (n lf : Z) : Z := if placed then Z.max (n + 1) (Z.quot lf 2) else lf.
 Definition chunk_of (n : Z) : Z := let c := n + Z.quot n 2 in if c <? 1 then 1 else c.
 Definition c_maxdepth : Z := 32.
+(* ThreadPool::scheduleBulkImpl: toEnqueue = min(count - i, chunkSize, room), at least 1 *)
+Definition pool_chunk (cnt : nat) (n room : Z) : nat :=
+  Nat.min cnt (Nat.max 1 (Z.to_nat (Z.min (Z.of_nat cnt) (Z.min (n + Z.quot n 2) room)))).
 
 Fixpoint guards (l : list frame) : Z :=
   match l with
@@ -249,7 +252,7 @@ Definition step_top (s : shared) (th : thread) (f : frame) (rest : list frame) (
       | FWrap T k b WRun :: r => okl s (FWrap T k b (WExcCas e) :: r) [(t_ee, k, c)]
       | FInl T k b WRun :: r => okl s (FInl T k b (WExcCas e) :: r) [(t_ee, k, c)]
       | FTop ops :: r => okl s (FTop ops :: r) [(t_u, e, c)]
-      | _ => ok s [FAbort]
+      | _ => ok s (FAbort :: rest)
       end
   (* ---- TaskSet::schedule *)
   | FTsCanc T k b => if canc (sets s T) then ok s rest else ok s (FTsOut T k b c :: rest)
@@ -326,14 +329,10 @@ Definition step_top (s : shared) (th : thread) (f : frame) (rest : list frame) (
       if mode =? 1 then ok s (FPoolBulk T (base + Z.of_nat i) m b :: FBulkLoop T mode base (i + m) n b :: rest)
       else ok (enqueue s (mk_tasks T (base + Z.of_nat i) m b)) (FBulkLoop T mode base (i + m) n b :: rest)
   | FPoolBulk T first cnt b =>
-      match cnt with
-      | O => ok s rest
-      | S cnt' =>
-          if (nthr s =? 0) || (plf s <? wr s) then ok s (FWrap T first b WCanc :: FPoolBulk T (first + 1) cnt' b :: rest)
-          else let m0 := Z.to_nat (Z.min (Z.of_nat cnt) (Z.min (nthr s + Z.quot (nthr s) 2) (plf s - wr s))) in
-               let m := Nat.min cnt (match m0 with O => 1%nat | _ => m0 end) in
-               ok (enqueue s (mk_tasks T first m b)) (FPoolBulk T (first + Z.of_nat m) (cnt - m) b :: rest)
-      end
+      if Nat.eqb cnt 0 then ok s rest
+      else if (nthr s =? 0) || (plf s <? wr s) then ok s (FWrap T first b WCanc :: FPoolBulk T (first + 1) (cnt - 1) b :: rest)
+      else let m := pool_chunk cnt (nthr s) (plf s - wr s) in
+           ok (enqueue s (mk_tasks T first m b)) (FPoolBulk T (first + Z.of_nat m) (cnt - m) b :: rest)
   (* ---- wait *)
   | FWaitTok T =>
       match deq_tok s T with
